@@ -15,7 +15,7 @@ RULE = (
     "ihx_gas_dt = 0 (no internal exchanger), then a generated order of build_stream_collection requests (condenser first, evaporator first, "
     "both at once, repeats). oracle: Q_cond = Q_evap + work with work > 0, COP_h = COP_r + 1, S1 >= S0, S3 >= S2, H3 = H2, P0 = Psat(Te), "
     "P1 = P2 = Psat(Tc) with CoolProp's high-level PropsSI as second opinion; emitted hot set sums to Q_cond, cold set to Q_evap, "
-    "temperatures monotone, sets independent of request order. part carnot_helper (supplementary, anchored helper): generated source profile, condenser ladder and evaporator ladder given to _get_optimal_min_evap_T_for_multi_temperature_carnot_hp; sum Q_cond = sum Q_evap + work, positive work, no negative or scaled-up duties, duties / work = cop. non-trivial = the cycle solved with lift >= 0.5 K (helper: evaporator duty available); distinct by canonical JSON."
+    "temperatures monotone, sets independent of request order; in half of the cases a second, unrelated cycle object is solved and asked for its streams at a generated point of the history (before the states are read or between two requests) - the first cycle's states and sets must not notice. part carnot_helper (supplementary, anchored helper): generated source profile, condenser ladder and evaporator ladder given to _get_optimal_min_evap_T_for_multi_temperature_carnot_hp; sum Q_cond = sum Q_evap + work, positive work, no negative or scaled-up duties, duties / work = cop. non-trivial = the cycle solved with lift >= 0.5 K (helper: evaporator duty available); distinct by canonical JSON."
 )
 ASSUMPTIONS = [
     "the property is conditional on 'the library solves': an exception inside solve() is counted as not solved (by signature), never as a pass of the assertions",
@@ -142,6 +142,23 @@ def eval_case(case) -> Outcome:
         out.skip = "not-solved:" + res
         return out
     out.nontrivial = True
+    other = case.get("other")
+
+    def solve_other():
+        """A second, unrelated cycle object is solved (and asked for its streams) in between: the first cycle's
+        states and stream sets must not notice."""
+        n2, tt2, tc2 = fl[(case["fluid"] + other["dfluid"]) % len(fl)]
+        lo2, hi2 = tt2 + 1.0, tc2 - 1.0
+        Te2 = lo2 + other["fe"] * (hi2 - lo2 - 0.5)
+        Tc2 = min(hi2, Te2 + max(0.5, other["flift"] * (hi2 - Te2)))
+        hp2 = SimpleHeatPumpCycle()
+        ok2, _ = call_sut(hp2.solve, round(Te2 - 273.15, 3), round(Tc2 - 273.15, 3), dT_sh=other["dsh"], dT_sc=0.0, eta_comp=0.6, refrigerant=n2, ihx_gas_dt=0.0, Q_h_total=other["Q"])
+        if ok2:
+            out.labels.add("other-cycle-solved-in-between")
+            call_sut(hp2.build_stream_collection, include_cond=True, include_evap=True)
+
+    if other and other["at"] == 0:
+        solve_other()
     ctx = f"{name} Te={Te_C}C Tc={Tc_C}C sh={dsh} sc={dsc} eta={eta} Q={Q}"
     H, S, P = list(hp.Hs), list(hp.Ss), list(hp.Ps)
     Qc, Qe, W = hp.Q_cond, hp.Q_evap, hp.work
@@ -187,7 +204,9 @@ def eval_case(case) -> Outcome:
             out.fail(aid, f"{ctx}: {what} lowers specific entropy: S{a}={S[a]!r} -> S{b}={S[b]!r}")
     # ---- stream sets, in the generated request order
     got = {}
-    for req in order:
+    for k, req in enumerate(order):
+        if other and other["at"] == k + 1:
+            solve_other()
         inc_c, inc_e = req in ("cond", "both"), req in ("evap", "both")
         okb, sc = call_sut(hp.build_stream_collection, include_cond=inc_c, include_evap=inc_e)
         if not okb:
@@ -231,6 +250,19 @@ def strategy(tier):
             "eta": st.sampled_from([1.0, 0.7, 0.7, 0.85, 0.5, 0.3]),
             "Q": st.sampled_from([1.0, 100.0, 738.7, 2500.0, 0.25]),
             "order": st.lists(st.sampled_from(["cond", "evap", "both"]), min_size=1, max_size=4),
+            "other": st.one_of(
+                st.none(),
+                st.fixed_dictionaries(
+                    {
+                        "at": st.integers(0, 3),
+                        "dfluid": st.sampled_from([0, 0, 1, 7]),
+                        "fe": st.sampled_from([0.1, 0.35, 0.6]),
+                        "flift": st.sampled_from([0.1, 0.4]),
+                        "dsh": st.sampled_from([0.0, 5.0]),
+                        "Q": st.sampled_from([10.0, 5000.0]),
+                    }
+                ),
+            ),
         }
     )
 
@@ -310,4 +342,4 @@ def carnot_case(draw):
 
 PARTS = [Part("cycle", eval_case, {"quick": 2000, "thorough": 60000}, strategy=strategy, min_nontrivial={"quick": 800, "thorough": 25000})]
 PARTS.append(Part("carnot_helper", eval_carnot, {"quick": 1500, "thorough": 40000}, strategy=lambda tier: carnot_case(), min_nontrivial={"quick": 300, "thorough": 8000}))
-MIN_SHARE = {"cycle": {"evap-requested-before-cond": 0.25, "lift<5K": 0.1, "superheat": 0.2, "subcooling": 0.2}}
+MIN_SHARE = {"cycle": {"other-cycle-solved-in-between": 0.25, "evap-requested-before-cond": 0.25, "lift<5K": 0.1, "superheat": 0.2, "subcooling": 0.2}}
